@@ -27,10 +27,12 @@ from __future__ import annotations
 
 import io
 import logging
+from dataclasses import dataclass
 from typing import Any, Protocol
 from urllib.parse import urlparse
 
 import falcon.testing
+import pyarrow as pa
 from hypothesis import strategies as st
 
 from lib import sched as S
@@ -39,7 +41,7 @@ from vgi_rpc.http import http_connect, make_wsgi_app
 from vgi_rpc.http._testing import _SyncTestClient
 from vgi_rpc.http.server import _middleware as _mw_mod
 from vgi_rpc.http.server._middleware import _TransportNotifyMiddleware
-from vgi_rpc.rpc import CallContext, RpcConnection, RpcServer
+from vgi_rpc.rpc import CallContext, OutputCollector, ProducerState, RpcConnection, RpcServer, Stream
 from vgi_rpc.rpc import _server as _server_mod
 from vgi_rpc.rpc._common import TransportKind
 from vgi_rpc.rpc._transport import PipeTransport, ShmPipeTransport, TcpTransport, UnixTransport
@@ -75,8 +77,32 @@ logging.getLogger("falcon").setLevel(logging.CRITICAL + 1)
 _KEY = b"k" * 32
 
 
+_CUR: dict[str, Any] = {}  # per-execution observers for the module-level stream state (it travels in tokens)
+
+
+@dataclass
+class _CountState(ProducerState):
+    n: int
+    i: int = 0
+
+    def produce(self, out: OutputCollector, ctx: CallContext) -> None:
+        obs = _CUR.get("dispatch")
+        if obs is not None:
+            obs("produce", ctx)
+        if self.i >= self.n:
+            out.finish()
+            return
+        out.emit_pydict({"i": [self.i]})
+        self.i += 1
+
+
+_COUNT_SCHEMA = pa.schema([("i", pa.int64())])
+
+
 class _Svc(Protocol):
     def ping(self) -> str: ...
+
+    def count(self, n: int) -> Stream[_CountState]: ...
 
 
 class _KeepBytesIO(io.BytesIO):
@@ -103,12 +129,15 @@ def _minimal_app(server: RpcServer) -> Any:
                          enable_describe_page=False, enable_health_endpoint=False)
 
 
-def _capture_requests() -> tuple[bytes, str, bytes, dict[str, str]]:
+def _capture_requests() -> tuple[bytes, dict[str, tuple[str, bytes, dict[str, str]]]]:
     """Record the bytes a real client sends for ``ping()`` over a pipe and over HTTP (done once, unscheduled)."""
 
     class Impl:
         def ping(self) -> str:
             return "pong"
+
+        def count(self, n: int) -> Stream[_CountState]:
+            return Stream(output_schema=_COUNT_SCHEMA, state=_CountState(n=n))
 
     w = _KeepBytesIO()
     try:
@@ -131,16 +160,20 @@ def _capture_requests() -> tuple[bytes, str, bytes, dict[str, str]]:
 
     with http_connect(_Svc, client=Rec()) as svc:  # type: ignore[arg-type]
         assert svc.ping() == "pong"
-    path, body, headers = posts[0]
-    assert pipe_req and body
-    return pipe_req, path, body, headers
+        assert len(list(svc.count(n=3))) == 3
+    assert pipe_req and posts[0][1] and len(posts) >= 3 and posts[1][0].endswith("/init") and posts[2][0].endswith("/exchange")
+    # the /exchange request carries a state token minted by THIS app: any other app built with the same key must serve
+    # it (tokens are stateless) — the situation of a pre-forked or restarted worker whose first request is a continuation
+    return pipe_req, {"http": posts[0], "http_init": posts[1], "http_exch": posts[2]}
 
 
-_PIPE_REQ, _HTTP_PATH, _HTTP_BODY, _HTTP_HEADERS = _capture_requests()
+_PIPE_REQ, _HTTP_REQS = _capture_requests()
 
 # op name -> (via, binding (kind, capabilities), carries a request)
 _OPS: dict[str, tuple[str, tuple[str, tuple[str, ...]], bool]] = {
     "http": ("http", ("http", ()), True),
+    "http_init": ("http", ("http", ()), True),
+    "http_exch": ("http", ("http", ()), True),
     "pipe": ("serve", ("pipe", ()), True),
     "pipe_eof": ("serve", ("pipe", ()), False),
     "shm": ("serve", ("pipe", ("shm",)), True),
@@ -202,8 +235,10 @@ def _execute(case: dict[str, Any]) -> tuple[list[tuple[Any, ...]], S.RunResult]:
 
     with S.Scheduler(case.get("schedule"), timeout=20, max_steps=50_000, pool=True) as sch:
         sch.install(_server_mod, _mw_mod)  # RpcServer.__init__ now builds a scheduler lock
-        sch.trace_code(RpcServer._notify_transport, RpcServer.serve, RpcServer.__dict__["transport_kind"],
-                       _TransportNotifyMiddleware.process_request)
+        # whichever falcon hooks the binding middleware implements are traced line by line
+        mw_hooks = [getattr(_TransportNotifyMiddleware, n) for n in ("process_request", "process_resource", "process_response")
+                    if callable(getattr(_TransportNotifyMiddleware, n, None))]
+        sch.trace_code(RpcServer._notify_transport, RpcServer.serve, RpcServer.__dict__["transport_kind"], *mw_hooks)
 
         def tname() -> str:
             me = sch.current()
@@ -228,6 +263,17 @@ def _execute(case: dict[str, Any]) -> tuple[list[tuple[Any, ...]], S.RunResult]:
                 sch.yield_point(("method",))
                 return "pong"
 
+            def count(self, n: int, ctx: CallContext) -> Stream[_CountState]:
+                log.append(("dispatch", tname(), ctx.kind.value if ctx.kind is not None else None))
+                sch.yield_point(("method",))
+                return Stream(output_schema=_COUNT_SCHEMA, state=_CountState(n=n))
+
+        def on_produce(what: str, ctx: CallContext) -> None:
+            log.append(("dispatch", tname(), ctx.kind.value if ctx.kind is not None else None))
+            sch.yield_point(("method",))
+
+        _CUR["dispatch"] = on_produce
+
         server = RpcServer(_Svc, Impl())
         if not isinstance(server._transport_lock, S.Lock):
             raise S.SchedulerError("proxy threading was not picked up by RpcServer.__init__")
@@ -241,8 +287,8 @@ def _execute(case: dict[str, Any]) -> tuple[list[tuple[Any, ...]], S.RunResult]:
                 via = _OPS[op][0]
                 if via == "http":
                     client = falcon.testing.TestClient(app)
-                    r = client.simulate_post(_HTTP_PATH, body=_HTTP_BODY, headers=_HTTP_HEADERS,
-                                             extras={"wsgi.errors": io.StringIO()})
+                    h_path, h_body, h_headers = _HTTP_REQS[op]
+                    r = client.simulate_post(h_path, body=h_body, headers=h_headers, extras={"wsgi.errors": io.StringIO()})
                     result = f"status={r.status_code}"
                 else:
                     try:
@@ -257,7 +303,10 @@ def _execute(case: dict[str, Any]) -> tuple[list[tuple[Any, ...]], S.RunResult]:
 
         for ti, ops in enumerate(case["threads"]):
             sch.spawn(worker, ti, ops, name=f"t{ti}")
-        res = sch.run()
+        try:
+            res = sch.run()
+        finally:
+            _CUR.pop("dispatch", None)
         res.raise_for_harness(allow_deadlock=False)
     return log, res
 
@@ -362,7 +411,7 @@ def run_case(case: dict[str, Any]) -> Outcome:
         if isinstance(tag, tuple) and tag:
             if tag[0] == "hook_exit":
                 break
-            if tag[0] == "line" and tag[1] in ("process_request", "_notify_transport"):
+            if tag[0] == "line" and tag[1] in ("process_request", "process_resource", "_notify_transport"):
                 gate_threads.add(name)
     out.nontrivial = bool(runs) and len(gate_threads) >= 2
 
@@ -385,7 +434,7 @@ def run_case(case: dict[str, Any]) -> Outcome:
     for idx, ev in enumerate(log):
         if ev[0] == "op_start":
             cur[ev[1]] = ev[3]
-        elif ev[0] == "dispatch" and cur[ev[1]] == "http" and not any(r.kind == "http" and r.end is not None and r.end < idx for r in good):
+        elif ev[0] == "dispatch" and cur[ev[1]].startswith("http") and not any(r.kind == "http" and r.end is not None and r.end < idx for r in good):
             if any(r.end is not None and r.end < idx for r in good):
                 out.label("obs:http_dispatch_under_other_kind_binding")
                 break
@@ -395,6 +444,6 @@ def run_case(case: dict[str, Any]) -> Outcome:
 
 
 def main(chk: Check) -> None:
-    chk.explore("first_requests", _cases(["http"], 2), run_case, quick=500, thorough=12000)
-    chk.explore("mixed", _cases(["http", "http", "pipe", "pipe_eof", "shm", "shm_eof", "unix", "unix_eof", "tcp_eof"], 3),
+    chk.explore("first_requests", _cases(["http", "http", "http_init", "http_exch"], 2), run_case, quick=500, thorough=12000)
+    chk.explore("mixed", _cases(["http", "http_init", "http_exch", "pipe", "pipe_eof", "shm", "shm_eof", "unix", "unix_eof", "tcp_eof"], 3),
                 run_case, quick=900, thorough=24000)
